@@ -37,6 +37,9 @@ def run(chk) -> None:
     repo = chk.repo
     from ._engine import engine_view
     chk.extra["helpers_inlined"] = engine_view(repo)
+    # the replay at resume folds the whole recorded log (an idle release is exit-shaped but not an end)
+    from ._engine import replay_consumes_whole_log
+    replay_consumes_whole_log(chk, "C13.R1")
     m = repo.module(CL)
     mp = repo.module(PR)
 
@@ -244,6 +247,7 @@ def run(chk) -> None:
 
 
 TWINS = [
+    Twin("replay stops at the first exit-shaped command", CL_REL, "                exit_command = command\n    return ReplayResult(state=state, exit_command=exit_command)\n", "                exit_command = command\n        if exit_command is not None:\n            break\n    return ReplayResult(state=state, exit_command=exit_command)\n", "C13.R1"),
     Twin("sqlite: look-ahead row fetched, never yielded, cursor taken from it", "packages/llama-agents-server/src/llama_agents/server/_store/sqlite/sqlite_workflow_store.py", *multi("packages/llama-agents-server/src/llama_agents/server/_store/sqlite/sqlite_workflow_store.py", [
         ("params: list[Any] = [run_id, _TICK_PAGE_SIZE]", "params: list[Any] = [run_id, _TICK_PAGE_SIZE + 1]"),
         ("params = [run_id, seq_cursor, _TICK_PAGE_SIZE]", "params = [run_id, seq_cursor, _TICK_PAGE_SIZE + 1]"),
